@@ -36,12 +36,32 @@ def _one(args):
     vid = variant["id"]
     try:
         repo = Repo(repo_root)
-        text = repo.read(variant["file"])
-        if text.count(variant["old"]) != 1:
-            return dict(id=vid, status="skipped", why="anchor occurs %d times" % text.count(variant["old"]))
-        overlay = {variant["file"]: text.replace(variant["old"], variant["new"])}
-        # the mutated file must still compile
-        compile(overlay[variant["file"]], variant["file"], "exec")
+        edits = variant.get("edits") or [(variant["file"], variant["old"], variant["new"])]
+        overlay = {}
+        for ed in edits:
+            fname, old, new_ = ed[:3]
+            line = ed[3] if len(ed) > 3 else None
+            text = overlay.get(fname)
+            if text is None:
+                text = repo.read(fname)
+            cnt = text.count(old)
+            if cnt == 1 or (cnt > 1 and line is not None):
+                # several identical contexts: take the one closest to the hunk's line number
+                pos, best = -1, None
+                while True:
+                    pos = text.find(old, pos + 1)
+                    if pos < 0:
+                        break
+                    ln = text.count("\n", 0, pos) + 1
+                    if best is None or abs(ln - (line or ln)) < abs(best[1] - (line or ln)):
+                        best = (pos, ln)
+                overlay[fname] = text[:best[0]] + new_ + text[best[0] + len(old):]
+            else:
+                return dict(id=vid, status="skipped", why="anchor occurs %d times in %s" % (cnt, fname))
+        # the mutated files must still compile
+        for fname, text in overlay.items():
+            if fname.endswith(".py"):
+                compile(text, fname, "exec")
         try:
             got, _ = _violations(prop, repo_root, overlay)
         except AnalysisError as e:
@@ -50,7 +70,7 @@ def _one(args):
             return dict(id=vid, status="failed", why="unexpected ANALYSIS-ERROR: %s" % e)
         new = got - base
         if variant["expect"] == "fire":
-            hits = [c for (r, c) in new if r == variant["rule"]
+            hits = [c for (r, c) in new if (variant["rule"] is None or r == variant["rule"])
                     and variant.get("construct", "") in c]
             if hits:
                 return dict(id=vid, status="ok", detail="reported %s" % sorted(hits)[:3])
@@ -72,13 +92,77 @@ def _one(args):
         return dict(id=vid, status="failed", why="exception: " + traceback.format_exc()[-600:])
 
 
+def _hunks(patch_text):
+    """(file, old block, new block) for each hunk of a unified diff"""
+    out = []
+    fname = None
+    old, new_ = [], []
+
+    start = [None]
+
+    def flush():
+        if fname and (old or new_) and old != new_:
+            out.append((fname, "".join(old), "".join(new_), start[0]))
+    for line in patch_text.splitlines(True):
+        if line.startswith("+++ "):
+            flush()
+            old, new_ = [], []
+            fname = line[4:].strip()
+            if fname.startswith("b/"):
+                fname = fname[2:]
+        elif line.startswith("--- ") or line.startswith("diff ") or line.startswith("index "):
+            continue
+        elif line.startswith("@@"):
+            flush()
+            old, new_ = [], []
+            import re as _re
+            m = _re.match(r"@@ -(\d+)", line)
+            start[0] = int(m.group(1)) if m else None
+        elif fname is None:
+            continue
+        elif line.startswith("-"):
+            old.append(line[1:])
+        elif line.startswith("+"):
+            new_.append(line[1:])
+        elif line.startswith(" "):
+            old.append(line[1:])
+            new_.append(line[1:])
+        elif line.startswith("\\"):
+            continue
+    flush()
+    return out
+
+
+def seeded_variants(prop=None):
+    """The changes produced by the seeding sub-agents (/verif/seeded/<prop>/<k>/patch.diff), as variants
+    that the check of their own property must report (unless meta.json says it is not decidable)."""
+    import glob
+    import json
+    out = []
+    for patch in sorted(glob.glob(os.path.join(HERE, "seeded", "C??", "*", "patch.diff"))):
+        p, k = patch.split(os.sep)[-3:-1]
+        if prop is not None and p != prop:
+            continue
+        meta = {}
+        mp = os.path.join(os.path.dirname(patch), "meta.json")
+        if os.path.exists(mp):
+            with open(mp) as fp:
+                meta = json.load(fp)
+        if meta.get("why_missed"):
+            continue
+        with open(patch) as fp:
+            edits = _hunks(fp.read())
+        out.append(dict(property=p, rule=None, id="seeded-%s-%s" % (p, k), edits=edits, expect="fire", construct=""))
+    return out
+
+
 def load_variants(prop=None):
     from selftest import variants
     out = []
     for v in variants.VARIANTS:
         if prop is None or v["property"] == prop:
             out.append(v)
-    return out
+    return out + seeded_variants(prop)
 
 
 def run_for(prop, repo_root=None, jobs=None):
